@@ -2,6 +2,7 @@
 
 from __future__ import annotations
 
+import dataclasses
 import functools
 from dataclasses import dataclass, field
 
@@ -24,6 +25,11 @@ class Profile:
     long_strings: bool = True
     oversize_legacy: bool = False  # 32768-byte strings on legacy classes (must be rejected)
     max_array: int = 3
+    # occasionally an array far beyond max_array: lengths around the chunk sizes and varint boundaries of the length prefix
+    # (127 items = the last one-byte compact length, 16383 the last two-byte one); items cycle through 1-3 generated units
+    long_arrays: bool = False
+    long_array_lengths: tuple = (63, 64, 65, 126, 127, 128, 129, 255, 256, 257, 1000)
+    long_scalar_array_lengths: tuple = (16382, 16383, 16384)
     long_lengths: tuple = (126, 127, 128, 129, 16383, 16384, 32766, 32767)
     # known-finding exclusions (each counted by the caller)
     whole_second_timestamps: bool = False
@@ -31,8 +37,8 @@ class Profile:
     no_unknown_tags_reason: str = ""
 
 
-PYTHON_CANONICAL = Profile("python_canonical")
-WIRE_CONFORMING = Profile("wire_conforming", explicit_defaults=True, unknown_tags=True, any_float_bits=True)
+PYTHON_CANONICAL = Profile("python_canonical", long_arrays=True)
+WIRE_CONFORMING = Profile("wire_conforming", explicit_defaults=True, unknown_tags=True, any_float_bits=True, long_arrays=True)
 WIRE_CANONICAL = Profile("wire_canonical", any_float_bits=True)
 SMALL = Profile("small", long_strings=False, max_array=2)
 MEDIUM = Profile("medium", long_lengths=(126, 127, 128, 129, 200))
@@ -179,6 +185,16 @@ def field_value(draw, cd: ClassDesc, f: FieldDesc, profile: Profile, depth: int)
     if f.array:
         if f.nullable and draw(st.integers(0, 3)) == 0:
             return None
+        if profile.long_arrays and draw(st.integers(0, 24)) == 0:
+            inner = dataclasses.replace(profile, long_arrays=False, long_strings=False)
+            lengths = profile.long_array_lengths + (profile.long_scalar_array_lengths if f.kind != "struct" else ())
+            n = draw(st.sampled_from(lengths))
+            if f.kind == "struct":
+                unit_st = tree_strategy(f.struct, inner, depth + 1)
+            else:
+                unit_st = scalar_strategy(f.kind, inner, cd.flexible, False)
+            units = [draw(unit_st) for _ in range(draw(st.integers(1, 3)))]
+            return [units[i % len(units)] for i in range(n)]
         max_n = max(1, profile.max_array - depth)
         n = draw(st.sampled_from([0, 1, 1, 2, max_n]))
         if f.kind == "struct":
@@ -281,6 +297,8 @@ def tree_labels(cd: ClassDesc, tree: dict, depth: int = 0, out: set | None = Non
                 out.add("array_one")
             else:
                 out.add("array_many")
+                if len(v) >= 127:
+                    out.add("array_ge127")
             items = v or []
         else:
             items = [v]
